@@ -9,7 +9,10 @@ CHECKS = {'A': ['C01', 'C02', 'C03', 'C09', 'C10', 'C11', 'C13', 'C14', 'C15', '
           'C': ['C02', 'C04', 'C05', 'C08', 'C11', 'C12', 'C16', 'C18'],
           'D': ['C01', 'C09', 'C10', 'C11', 'C12', 'C13', 'C14', 'C18'],
           'E': ['C01', 'C05', 'C06', 'C07', 'C09', 'C15', 'C17'],
-          'F': ['C02', 'C03', 'C04', 'C08', 'C12', 'C14', 'C16']}
+          'F': ['C02', 'C03', 'C04', 'C08', 'C12', 'C14', 'C16'],
+          'G': ['C01', 'C04', 'C07', 'C10', 'C11', 'C12', 'C13', 'C16'],
+          'H': ['C01', 'C02', 'C03', 'C04', 'C05', 'C06', 'C07', 'C08', 'C09', 'C12', 'C17'],
+          'I': ['C01', 'C05', 'C06', 'C07', 'C08', 'C14', 'C15', 'C17']}
 
 
 def main():
@@ -17,7 +20,7 @@ def main():
     only = sys.argv[1:]
     out = {}
     for d in sorted(os.listdir('benign')):
-        if not re.match(r'^[A-F]-\d$', d) or (only and d not in only):
+        if not re.match(r'^[A-I]-\d$', d) or (only and d not in only):
             continue
         patch = os.path.join(HERE, 'benign', d, 'patch.diff')
         for chk in CHECKS[d[0]]:
